@@ -81,6 +81,8 @@ func c15Exec(c *Ctx, op string) string {
 		return "bad-op"
 	}
 	switch f[0] {
+	case "sr.filter":
+		return srExec(c, op)
 	case "#":
 		if len(f) >= 4 && f[1] == "fuzz" {
 			raw, _ := hex.DecodeString(strings.TrimPrefix(f[3], "-"))
@@ -309,4 +311,6 @@ func c15Run(c *Ctx) {
 		c.One(op, c15Exec(c, op), false)
 		c.Count("fuzz-" + entry)
 	}
+	// (4) stored records through the daemon's start-up filter
+	srRun(c, "C15", c.Scale(600, 12000))
 }
